@@ -178,3 +178,49 @@ Proof.
   cbn [gbind Z.to_nat skipn]. rewrite !Z.sub_0_r.
   replace (Z.to_nat a) with (S (Z.to_nat (a - 1))) by lia. reflexivity.
 Qed.
+
+(* ---------- nat-indexed variants and list facts used by the equivalence proofs ---------- *)
+Lemma firstn_snoc_nth : forall {A} (l : list A) n x, nth_error l n = Some x -> firstn (S n) l = firstn n l ++ [x].
+Proof.
+  intros A l. induction l as [|y l IH]; intros [|n] x H; cbn in *; try discriminate.
+  - injection H as ->. reflexivity.
+  - f_equal. apply IH. assumption.
+Qed.
+
+
+Lemma nth_error_firstn_lt : forall {A} (l : list A) n k, (k < n)%nat -> nth_error (firstn n l) k = nth_error l k.
+Proof.
+  intros A l. induction l as [|y l IH]; intros [|n] [|k] H; cbn; try reflexivity; try lia.
+  apply IH. lia.
+Qed.
+
+
+Lemma nth_lt : forall {A} (t : list A) i, (i < length t)%nat -> exists c, nth_error t i = Some c.
+Proof. intros A t i H. destruct (nth_error t i) eqn:E; [eauto|]. apply nth_error_None in E. lia. Qed.
+
+
+Lemma go_index_nat : forall {A} (t : list A) i c, nth_error t i = Some c -> go_index t (Z.of_nat i) = GOk c.
+Proof. intros. apply go_index_nth; [lia|]. rewrite Nat2Z.id. assumption. Qed.
+
+
+Lemma go_slice_nat : forall {A} (t : list A) a b, (a <= b <= length t)%nat ->
+  go_slice t (Z.of_nat a) (Z.of_nat b) = GOk (firstn (b - a) (skipn a t)).
+Proof.
+  intros A t a b H. unfold go_slice, go_len.
+  replace ((0 <=? Z.of_nat a) && (Z.of_nat a <=? Z.of_nat b) && (Z.of_nat b <=? Z.of_nat (length t)))%bool with true by lia.
+  rewrite Nat2Z.id. replace (Z.to_nat (Z.of_nat b - Z.of_nat a)) with (b - a)%nat by lia. reflexivity.
+Qed.
+
+
+Lemma go_slice_from_nat : forall {A} (t : list A) a, (a <= length t)%nat -> go_slice_from t (Z.of_nat a) = GOk (skipn a t).
+Proof.
+  intros A t a H. unfold go_slice_from. change (go_len t) with (Z.of_nat (length t)). rewrite go_slice_nat by lia.
+  rewrite firstn_all2 by (rewrite skipn_length; lia). reflexivity.
+Qed.
+
+
+(* closes a pointwise specification of a generated lambda, after the facts about its reads were rewritten:
+   case analysis on every remaining condition, whatever the shape of the generated term *)
+Ltac close_spec :=
+  repeat (cbn [gbind]; try split_if); cbn [gbind];
+  first [ reflexivity | f_equal; lia | f_equal; f_equal; lia | exfalso; lia ].
